@@ -37,7 +37,24 @@ type filterCase struct {
 	Frontend string `json:"frontend"`
 	Wt       string `json:"wt"`
 	Ext      string `json:"ext"` // pointer extensions configured: none | rot13 | gzip | base64 | rot13+gzip
+	Prev     string `json:"prev"` // what the same filter process cleaned just before: none | empty | shortdata | ptr
 	Branch   string `json:"branch"`
+}
+
+// prevInput gives the bytes of the file the filter process served before the case's own, and what
+// clean has to answer for it.
+func prevInput(kind string) (in []byte, want []byte) {
+	switch kind {
+	case "empty":
+		return []byte{}, []byte{}
+	case "shortdata":
+		in = []byte("ten bytes\n")
+		return in, []byte(canonPointer(core.Sha(in), len(in)))
+	case "ptr":
+		in = []byte(canonPointer(core.Sha([]byte("the previous file")), 4711))
+		return in, in
+	}
+	return nil, nil
 }
 
 // ---- pointer extensions (docs/extensions.md) ------------------------------------------------
@@ -521,6 +538,10 @@ func runFilterCase(c *core.Ctx, lfsBin string, fc *filterCase, idx int) (*core.V
 	if len(chain) > 0 {
 		fields["ext"] = fc.Ext
 	}
+	if fc.Prev != "" && fc.Prev != "none" {
+		fields["prev"] = fc.Prev
+	}
+	prevIn, prevWant := prevInput(fc.Prev)
 	mk := func(assertion, why string, extra map[string]interface{}) *core.Violation {
 		d := map[string]interface{}{"why": why, "case": fc, "input_len": len(input), "input_sha256": core.Sha(input)}
 		for k, v := range extra {
@@ -548,6 +569,13 @@ func runFilterCase(c *core.Ctx, lfsBin string, fc *filterCase, idx int) (*core.V
 		}
 		sess = s
 		defer sess.Close()
+		if prevIn != nil {
+			pr, timedOut := sess.RequestT(60*time.Second, "clean", "a.bin", nil, prevIn, pktSize(fc.Delivery), true)
+			if timedOut || pr.Died || pr.ProtoErr != "" || pr.Status != "success" || !bytes.Equal(pr.Content, prevWant) {
+				return mk("filter-process-clean-exchange", fmt.Sprintf("the request before (%s): timeout=%v died=%v proto=%q status=%q output %.200q", fc.Prev, timedOut, pr.Died, pr.ProtoErr, pr.Status, pr.Content),
+					map[string]interface{}{"stderr": core.Tail(sess.Stderr.String(), 800)}), nil
+			}
+		}
 		r, timedOut := sess.RequestT(60*time.Second, "clean", "f.bin", nil, input, pktSize(fc.Delivery), true)
 		if timedOut || r.Died || r.ProtoErr != "" || r.Status != "success" || (r.FinalStatus != "" && r.FinalStatus != "success") {
 			return mk("filter-process-clean-exchange", fmt.Sprintf("timeout=%v died=%v proto=%q status=%q final=%q", timedOut, r.Died, r.ProtoErr, r.Status, r.FinalStatus),
@@ -555,7 +583,13 @@ func runFilterCase(c *core.Ctx, lfsBin string, fc *filterCase, idx int) (*core.V
 		}
 		cleaned = r.Content
 	case "gitadd":
-		if r := env.Git(repo, "add", "--", "f.bin"); !r.OK() {
+		addArgs := []string{"add", "--", "f.bin"}
+		if prevIn != nil {
+			// one `git add` of two files: one filter process, a.bin first
+			env.WriteFile(filepath.Join(repo, "a.bin"), prevIn, 0o644)
+			addArgs = []string{"add", "--", "a.bin", "f.bin"}
+		}
+		if r := env.Git(repo, addArgs...); !r.OK() {
 			return mk("clean-succeeds", "git add failed", map[string]interface{}{"stderr": core.Tail(r.All(), 800)}), nil
 		}
 		r := env.RunIn(repo, nil, nil, 0, "git", "cat-file", "blob", ":f.bin")
@@ -566,9 +600,22 @@ func runFilterCase(c *core.Ctx, lfsBin string, fc *filterCase, idx int) (*core.V
 	}
 	after := gitenv.ListObjects(gitDir)
 	newObjs := []string{}
+	prevRel := ""
+	if fc.Prev == "shortdata" {
+		o := core.Sha(prevIn)
+		prevRel = filepath.Join(o[0:2], o[2:4], o)
+		if got, ok := after[prevRel]; !ok || !bytes.Equal(got, prevIn) {
+			return mk("stored-object-is-the-input", "the file cleaned before this one is not in local storage", nil), nil
+		}
+	}
 	for k := range after {
-		if _, ok := before[k]; !ok {
+		if _, ok := before[k]; !ok && k != prevRel {
 			newObjs = append(newObjs, k)
+		}
+	}
+	if prevIn != nil && fc.Frontend == "gitadd" {
+		if r := env.RunIn(repo, nil, nil, 0, "git", "cat-file", "blob", ":a.bin"); !r.OK() || r.Stdout != string(prevWant) {
+			return mk("clean-succeeds", fmt.Sprintf("the file added before this one (%s) was staged as %.200q", fc.Prev, r.Stdout), nil), nil
 		}
 	}
 	ex := map[string]interface{}{"clean_output": fmt.Sprintf("%.300q", cleaned), "clean_output_len": len(cleaned), "new_objects": newObjs, "stderr": core.Tail(stderrTxt, 400)}
